@@ -324,6 +324,7 @@ func writeReplay(o CheckOpts, E *Engine, ob *Oblig) string {
 		"pos":        ob.Pos,
 		"solver":     map[string]interface{}{"name": ob.Res.Solver, "answer": ob.Res.Status, "ms": ob.Res.Ms, "transcript": ob.Res.Output, "all": ob.Res.All},
 		"model":      ob.Res.Model,
+		"witness":    WitnessFromModel(ob.ValueNames, ob.Res.Values),
 		"smt_file":   ob.File,
 		"driver":     map[string]interface{}{"confirmed": false},
 	}
